@@ -1,11 +1,11 @@
 package sim
 
 import (
-	"sort"
 	"context"
 	"encoding/json"
 	"errors"
 	"fmt"
+	"sort"
 	"sync"
 	"testing"
 	"time"
@@ -170,7 +170,7 @@ func runC15(t *testing.T, seed uint64, planJSON []byte, tier string) (res *Resul
 		plan = genC15(seed, tier)
 		tape = simkit.NewTape(seed)
 	}
-	res.Harness = runBubble(t, func(t *testing.T) {
+	res.Harness = runBubbleP(t, plan, func(t *testing.T) {
 		w := bootRemoting(seed, tape, BootCfg{LoadBalance: "RandomLoadBalance", CommitRetry: 1, RollbackRetry: 1}, simnet.Config{FragmentPct: 15, ParkWrites: true})
 		sim, tc, net := w.Sim, w.TC, w.Net
 		stopYield, yok := startParkedYield(sim, seed, res)
